@@ -1,7 +1,8 @@
 fn main() {
   let seed: u64 = std::env::args().nth(1).and_then(|s| s.parse().ok()).unwrap_or(1);
-  let wild = std::env::args().nth(2).is_some();
-  let g = vcore::loopgen::generate(seed, wild);
-  println!("{}", g.project.modules[0].1);
-  println!("// {:?} entered {}", g.shapes, g.loops_entered);
+  let mut rng = vcore::rng::Rng::new(seed);
+  let t = vcore::lsphist::zoo(&mut rng, "AlphaWithAVeryLongSuffix", "Beta", "BetaWithAVeryLongSuffix", true);
+  println!("{t}");
+  let p = vcore::fmtcheck::parse(&t).unwrap();
+  println!("// syntax errors: {:?}", p.syntax_errors);
 }
